@@ -263,3 +263,12 @@ package channeldb
 //@   site call WriteElements nth 1: assert len(arg(1)) == 1 && dyndata(arg(1)[0]) == boxof(channel.RemoteNextRevocation) && channel.RemoteNextRevocation != nil &&
 //@        ret(WriteElements, 0) == nil
 //@   site call Put: assert arg(1) == revocationStateKey && ret(WriteElements, 0) == nil
+//@
+//@ // ---- a revoked state is looked up in the new revocation log first and, whenever it is not there, in the deprecated bucket of nodes
+//@ // ---- that upgraded without migrating: "not found" is the answer only when there is no deprecated bucket to ask
+//@ func fetchRevocationLogCompatible
+//@   props C04
+//@   loop * havoc
+//@   ensures result2 == ErrLogEntryNotFound ==> ret(NestedReadBucket, 1) == nil || called(fetchOldRevocationLog)
+//@   site call fetchRevocationLog: assert arg(0) == ret(NestedReadBucket, 0) && arg(1) == updateNum
+//@   site call fetchOldRevocationLog: assert arg(0) == ret(NestedReadBucket, 1) && arg(1) == updateNum
